@@ -698,3 +698,46 @@ def show(t, fn=None, depth=0):
     if k == "op":
         return "%s(%s)" % (t[1], ",".join(show(x, fn, depth + 1) for x in t[2:] if isinstance(x, tuple)))
     return str(t)
+
+
+def linear(t, depth=0):
+    """affine decomposition of an integer/pointer term: ({atom term: coefficient}, constant).
+    Non-linear subterms are atoms. Width changes (zext/sext/trunc) are looked through, i.e. the
+    result is exact only when those casts do not wrap (callers state this assumption)."""
+    k = t[0]
+    if k == "c":
+        return {}, to_signed(t[1], t[2]) if t[2] >= 8 else t[1]
+    if depth > 30:
+        return {t: 1}, 0
+    if k == "gep":
+        co, c = linear(t[1], depth + 1)
+        co = dict(co)
+        c += t[2]
+        for v, sc in t[3]:
+            c2, k2 = linear(v, depth + 1)
+            for a, n in c2.items():
+                co[a] = co.get(a, 0) + n * sc
+            c += k2 * sc
+        return {a: n for a, n in co.items() if n}, c
+    if k == "cast":
+        return linear(t[2], depth + 1)
+    if k == "bin":
+        op = t[1]
+        if op in ("add", "sub"):
+            ca, ka = linear(t[2], depth + 1)
+            cb, kb = linear(t[3], depth + 1)
+            s = 1 if op == "add" else -1
+            co = dict(ca)
+            for a, n in cb.items():
+                co[a] = co.get(a, 0) + s * n
+            return {a: n for a, n in co.items() if n}, ka + s * kb
+        if op == "mul" and (t[2][0] == "c" or t[3][0] == "c"):
+            cst, other = (t[2], t[3]) if t[2][0] == "c" else (t[3], t[2])
+            co, c = linear(other, depth + 1)
+            m = to_signed(cst[1], cst[2])
+            return {a: n * m for a, n in co.items() if n * m}, c * m
+        if op == "shl" and t[3][0] == "c" and t[3][1] < 63:
+            co, c = linear(t[2], depth + 1)
+            m = 1 << t[3][1]
+            return {a: n * m for a, n in co.items()}, c * m
+    return {t: 1}, 0
